@@ -1,6 +1,6 @@
 (* C11 — valid queries parse to the structure they denote; invalid ones are rejected; parsing
    never panics.  Statements only. *)
-From DT Require Import Lib.Bytes Lib.Split Gen.Consts Model.C11_Query Proofs.C11_Query.
+From DT Require Import Lib.Bytes Lib.Split Gen.Consts Model.C11_Query Proofs.C11_Query Proofs.C11_Surface.
 
 (* Parsing never panics: for every query text and every behaviour of strconv's ParseFloat / Atoi,
    NewQuery returns (nil,nil) for the empty string, an error, or a query - every slice and index
@@ -17,11 +17,29 @@ Theorem C11_keyword_case : forall s s', lower s = lower s' -> is_keyword (bare_t
 Proof. exact is_keyword_case. Qed.
 Print Assumptions C11_keyword_case.
 
-(* The full round-trip statement (every valid query in every surface variation parses to the
-   structure it denotes; everything else is rejected) is NOT proved: it is exercised by the
-   correspondence check, which renders random abstract queries in random clause orders, keyword
-   cases, separator styles and quotings, mutates them, and compares every parsed field of
-   mapr.NewQuery with this model.  What is proved is totality and case-insensitivity above. *)
+(* The separator style does not matter: for a text without double quotes, whatever separates its words
+   - any non-empty mix of blanks, tabs, newlines, carriage returns, form feeds and commas, also in front
+   of the first and behind the last word - the tokens are exactly the words; hence two texts with the same
+   words in the same order parse to the same result (query, error, or nothing). *)
+Theorem C11_separators : forall lead items,
+  sep_string lead -> well_sep items -> ~ In dquote (lead ++ render items) ->
+  tokenize (lead ++ render items) = map bare_tok (map fst items).
+Proof. exact tokenize_separators. Qed.
+Print Assumptions C11_separators.
+
+Theorem C11_separators_parse : forall is_float atoi lead1 items1 lead2 items2,
+  sep_string lead1 -> well_sep items1 -> ~ In dquote (lead1 ++ render items1) ->
+  sep_string lead2 -> well_sep items2 -> ~ In dquote (lead2 ++ render items2) ->
+  map fst items1 = map fst items2 -> items1 <> [] ->
+  new_query is_float atoi (lead1 ++ render items1) = new_query is_float atoi (lead2 ++ render items2).
+Proof. exact new_query_separators. Qed.
+Print Assumptions C11_separators_parse.
+
+(* The full round-trip statement (every valid query in every surface variation - clause order, quoting -
+   parses to the structure it denotes; everything else is rejected) is NOT proved: it is exercised by the
+   correspondence check, which renders random abstract queries in random clause orders, keyword cases,
+   separator styles and quotings, mutates them, and compares every parsed field of mapr.NewQuery with this
+   model.  What is proved is totality, keyword case-insensitivity and separator invariance. *)
 Example C11_example :
   let text := B"SeLeCt count(x),`avg(y)`  from stats WHERE a >= 2.5 and ""s t"" eq b group by h rorder by count(x) limit 10" in
   match new_query (fun s => bytes_eqb s (B"2.5")) (fun s => if bytes_eqb s (B"10") then Some 10%Z else None) text with
@@ -30,3 +48,9 @@ Example C11_example :
   | _ => False
   end.
 Proof. vm_compute. repeat split; reflexivity. Qed.
+
+Example C11_separators_example :
+  well_sep [(B"select", [x09]); (B"count(x)", [x2c; x0a; x20]); (B"from", [x0d; x0a]); (B"S", [])]
+  /\ tokenize ([x0a] ++ render [(B"select", [x09]); (B"count(x)", [x2c; x0a; x20]); (B"from", [x0d; x0a]); (B"S", [])])
+     = map bare_tok [B"select"; B"count(x)"; B"from"; B"S"].
+Proof. split; [apply well_sep_b_ok; vm_compute; reflexivity|vm_compute; reflexivity]. Qed.
